@@ -523,7 +523,9 @@ func (g *genCtx) add(e Entry) { g.s.GET = append(g.s.GET, e) }
 var asURLFields = []string{"authorization_endpoint", "token_endpoint", "registration_endpoint", "jwks_uri", "service_documentation",
 	"op_policy_uri", "op_tos_uri", "revocation_endpoint", "introspection_endpoint"}
 
-var scriptURLs = []string{"javascript:alert(1)", "JavaScript:alert(document.domain)", "data:text/html,<script>alert(1)</script>", "vbscript:msgbox(1)", "javascript://as.example/%0aalert(1)"}
+var scriptURLs = []string{"javascript:alert(1)", "JavaScript:alert(document.domain)", "data:text/html,<script>alert(1)</script>", "vbscript:msgbox(1)", "javascript://as.example/%0aalert(1)",
+	// white space in front of the scheme: a browser strips it and runs the script all the same
+	" javascript:alert(1)", "\tjavascript:alert(1)", "\n data:text/html,<script>alert(1)</script>", "\r\nJavaScript:alert(1)"}
 
 var nonLoopbackHTTP = []string{"http://as.example/x", "http://localhost.evil.example/x", "http://localhost@evil.example/x", "http://127.0.0.1.evil.example/x", "http://10.0.0.1/x", "http://evil.example:443/x"}
 
